@@ -1068,22 +1068,36 @@ func ctxArgAt(c *ssa.CallCommon) ssa.Value {
 	return nil
 }
 
-// HasRecoverBarrier: fn defers a closure that calls recover() and assigns a non-nil value to an enclosing
-// (named result) variable.
+// HasRecoverBarrier: fn defers a closure that calls recover() and assigns a non-nil error to a variable that is
+// one of fn's NAMED RESULTS (i.e. the value the function returns after the recovery). Assigning to an ordinary
+// local does not convert the panic into an error: the function would return the zero values.
 func HasRecoverBarrier(fn *ssa.Function) bool {
+	if fn.Recover == nil {
+		return false
+	}
+	// allocs whose value is returned from the recover block = named results
+	named := map[ssa.Value]bool{}
+	if rt := returnOf(fn.Recover); rt != nil {
+		for _, rv := range rt.Results {
+			if u, ok := rv.(*ssa.UnOp); ok && u.Op == token.MUL {
+				named[u.X] = true
+			}
+		}
+	}
+	if len(named) == 0 {
+		return false
+	}
 	for _, b := range fn.Blocks {
 		for _, in := range b.Instrs {
 			d, ok := in.(*ssa.Defer)
 			if !ok {
 				continue
 			}
-			var cf *ssa.Function
-			switch v := d.Call.Value.(type) {
-			case *ssa.MakeClosure:
-				cf, _ = v.Fn.(*ssa.Function)
-			case *ssa.Function:
-				cf = v
+			mc, ok := d.Call.Value.(*ssa.MakeClosure)
+			if !ok {
+				continue
 			}
+			cf, _ := mc.Fn.(*ssa.Function)
 			if cf == nil {
 				continue
 			}
@@ -1094,8 +1108,14 @@ func HasRecoverBarrier(fn *ssa.Function) bool {
 						hasRecover = true
 					}
 					if st, ok := ci.(*ssa.Store); ok {
-						if _, ok := st.Addr.(*ssa.FreeVar); ok && isErrorType(st.Val.Type()) && !isNilConst(st.Val) {
-							setsErr = true
+						fv, ok := st.Addr.(*ssa.FreeVar)
+						if !ok || !isErrorType(st.Val.Type()) || isNilConst(st.Val) {
+							continue
+						}
+						for i, f := range cf.FreeVars {
+							if f == fv && i < len(mc.Bindings) && named[mc.Bindings[i]] {
+								setsErr = true
+							}
 						}
 					}
 				}
